@@ -35,6 +35,13 @@ Definition overflow_tok (bound : N) (tok : string) : bool :=
 Definition has_overflow_tok (bound : N) (txt : string) : bool :=
   existsb (fun l => existsb (overflow_tok bound) (split_on c_sp l)) (split_on c_nl txt).
 
+Fixpoint forall2b {A B} (f : A -> B -> bool) (a : list A) (b : list B) : bool :=
+  match a, b with
+  | [], [] => true
+  | x :: r, y :: s => f x y && forall2b f r s
+  | _, _ => false
+  end.
+
 Fixpoint failing_from {C} (check : C -> N) (i : N) (cs : list C) : list (N * N) :=
   match cs with
   | [] => []
@@ -261,7 +268,7 @@ Definition spec_b (c : case) : bool :=
   (* the harness must hand the same sizes to Python as the locators carry *)
   list_eqb N.eqb (sizes c) (sizes_of (blocks c)) &&
   (* every in-range token: no exception, and the non-empty segments are the reference ones, block sizes right *)
-  list_eqb (fun f o =>
+  forall2b (fun f o =>
               let '(p, n, _) := f in
               if (p + n <=? tot)%N then
                 match o with
@@ -289,7 +296,7 @@ Definition spec_b (c : case) : bool :=
      end
    else true) &&
   (* escape round trip *)
-  list_eqb (fun n e => String.eqb (unescape e) n && all_chars is_tokc e) (c_names c) (o_esc c).
+  forall2b (fun n e => String.eqb (unescape e) n && all_chars is_tokc e) (c_names c) (o_esc c).
 
 Definition check_case (c : case) : N := ((if model_b c then 0 else 1) + (if spec_b c then 0 else 2))%N.
 Definition failing (cs : list case) : list (N * N) := failing_from check_case 0%N cs.
